@@ -327,10 +327,14 @@ def apply_op(tdgl, heap, o, v):
         dx, dy = o["par"]
         return D.translate(dx, dy, inplace=o["inplace"]), "Device.translate"
     if op == "devrotate":
-        return D.rotate(90 * o["q"], origin=tuple(o["org"])), "Device.rotate"
+        if tuple(o["org"]) == (0, 0) and v % 2:
+            return D.rotate(90 * o["q"]), "Device.rotate default origin"
+        return D.rotate(90 * o["q"], origin=tuple(o["org"])), f"Device.rotate origin={tuple(o['org'])}"
     if op == "devscale":
         fx, fy = o["par"]
-        return D.scale(xfact=fx, yfact=fy, origin=tuple(o["org"])), "Device.scale"
+        if tuple(o["org"]) == (0, 0) and v % 2:
+            return D.scale(xfact=fx, yfact=fy), "Device.scale default origin"
+        return D.scale(xfact=fx, yfact=fy, origin=tuple(o["org"])), f"Device.scale origin={tuple(o['org'])}"
     raise ValueError(op)
 
 
